@@ -328,7 +328,10 @@ func Orchestrate(prop, tier string, seed uint64, workerExe string) int {
 	}
 	evals := int64(evaluated)
 	if v, ok := obs["evaluations"]; ok && v > 0 {
-		evals = v
+		// cases may count the individual executions they ran; never report fewer than the cases themselves
+		if v > evals {
+			evals = v
+		}
 		delete(obs, "evaluations")
 	}
 	cov := map[string]any{
